@@ -272,6 +272,8 @@ def b_tuple(ip, args, kwargs, node):
 
 
 def b_zip(ip, args, kwargs, node):
+    if len(args) == 2 and all(isinstance(a, VOpaque) for a in args):
+        return VOpaque(z3.Function("zip_", Opaque, Opaque, Opaque)(args[0].term, args[1].term))
     if any(isinstance(a, VOpaque) or a.kind == "iter" for a in args):
         return VOpaque(ip.st.fresh("zip", Opaque))
     seqs = [ip.iterate(a) for a in args]
@@ -557,6 +559,17 @@ def make_exc_ctor(name):
     return ctor
 
 
+def setattr_on_function(ip, base, attr, v):
+    """attribute stored on a function / wrapper object that is not an instance attribute of a heap object:
+    a class-level object shared by every instance.  Recorded as a ghost event so that frame clauses can see it."""
+    from .values import VMethod
+    owner = f"{base.cls}.{base.name}" if isinstance(base, VMethod) else "function"
+    scope = "class_level" if isinstance(base, VMethod) and base.obj is None or (isinstance(base, VMethod) and base.finfo is not None
+                                                                               and "middleware_wrapper" in base.finfo.decorators) else "bound"
+    ip.emit("shared_writes", VTuple([VStr(scope), VStr(owner), VStr(attr)]))
+    return None
+
+
 def build_lib() -> dict:
     lib: dict = {}
     lib["min"] = VBuiltin("min", _minmax(True))
@@ -615,6 +628,7 @@ def build_lib() -> dict:
         ("opaque", "__name__"): lambda ip, b: VStr(z3.Function("name_of", Opaque, z3.StringSort())(b.term)),
         ("dt", "tzinfo"): lambda ip, b: VNone,   # naive datetimes only (precondition of every contract)
     }
+    lib["__setattr_func__"] = setattr_on_function
     lib["__getitem__"] = {}
     lib["__setitem__"] = {}
     lib["__slice__"] = {}
